@@ -30,6 +30,7 @@ DOC = {
         "C07-R1": "every array that reaches a += accumulation (also through a kernel's out-parameter) is allocated with np.zeros",
         "C07-R2": "the time origin of decay, coherent artifact, damped oscillation and PFID is affine in (centre, shift) with the same coefficient of shift (centre - shift)",
         "C07-R3": "no-IRF oscillation exp(-rate t - i f t); IRF form exp((-t + dk/2) k) (1 + erf((t - dk)/(sqrt2 w))) with dk = k w^2, k = rate + i f, summed over Gaussians and divided by sum(scales); artifact g, g (c-t)/w^2, g ((t-c)^2 - w^2)/w^4 with g = exp(-(t-c)^2/(2 w^2)); Gaussian shape exp(-ln2 (2(x-x0)/D)^2), skewed variant exp(-ln2 (ln(1 + 2b(x-x0)/D)/b)^2) where the log argument is positive, 0 elsewhere; amplitude applied when given",
+        "C07-R5": "no megacomplex modifies an axis or parameter array it was handed in place (a column computed on an axis that was rescaled by an earlier evaluation no longer follows the documented formula); only declared out-parameter kernels fill the caller's fresh matrix",
         "C07-R4": "coherent artifact: orders 1..3 accepted; column k is written iff order > k; labels and matrix have `order` columns",
     },
     "declined": ["continuity as skewness -> 0 and proportionality constants (numeric)", "that the IRF form equals the convolution integral (mathematics)"],
@@ -351,9 +352,17 @@ def r4(ctx) -> None:
     _ = fl2
 
 
+def r5(ctx) -> None:
+    """Basis functions are functions of their arguments: no in-place change of an axis / parameter array handed in
+    (ownership analysis shared with C10-R3, restricted to the megacomplex package)."""
+    from glint.rules.c10 import r3 as ownership
+
+    ownership(ctx, rule="C07-R5", scope=("glotaran/builtin/megacomplexes/",), floors=False)
+
+
 def check(ctx) -> None:
     for g in check.groups:
         g(ctx)
 
 
-check.groups = [r1, r2, r3, r4]
+check.groups = [r1, r2, r3, r4, r5]
